@@ -104,7 +104,7 @@ void tape_reset_counters();
 std::string src_log_json();
 
 void reg_perm(); void reg_sponge(); void reg_aead(); void reg_mac(); void reg_kdf();
-void reg_extra(); void reg_abi();
+void reg_extra(); void reg_abi(); void reg_ct();
 void reg_isap(); void reg_prng(); void reg_masked(); void reg_cpp(); void reg_misc();
 
 #endif
